@@ -335,15 +335,22 @@ def observed_tuple(r):
     return (r["status"], r.get("panic_at") or r.get("msg", "")[:80], r["log"])
 
 
+DROPPED_KINDS = {"app1", "app2", "papp", "effm", "idx", "mpart", "recf"}      # see known_findings.json (C01 / C04)
+
+
 def explain_by_dead_bindings(o, r):
     """If the observed outcome equals the model outcome of the program with some dead bindings dropped, returns the
     sorted list of impure node kinds in the dropped right-hand sides (possibly empty); otherwise None."""
     obs = observed_tuple(r)
     best = None
+    # several sets of dropped bindings can explain one observation (two bindings with the same effect, a failing and a
+    # calling right-hand side in one dropped subtree ...): the explanation that only uses the kinds of right-hand sides
+    # the optimiser is recorded to drop is preferred, then the smaller one
+    rank = lambda kinds: (len([k for k in kinds if k not in DROPPED_KINDS and k not in ARITH_ONLY]), len(kinds), kinds)
     for a in o.get("alts", []):
         if res_tuple(a["o"]) == obs:
             kinds = sorted(a["d"])
-            if best is None or len(kinds) < len(best):
+            if best is None or rank(kinds) < rank(best):
                 best = kinds
     return best
 
